@@ -105,7 +105,11 @@ func cmdShow(args []string) int {
 		r := w.verifyFunc(fn, ct, w.modeFor(ct))
 		results = append(results, r)
 	}
-	solveAll(results, 2, 10, runtime.NumCPU())
+	full := 10
+	if v := os.Getenv("GOVC_T"); v != "" {
+		fmt.Sscanf(v, "%d", &full)
+	}
+	solveAll(results, 2, full, runtime.NumCPU())
 	for _, r := range results {
 		fmt.Printf("== %s (mode %s)\n", r.Key, r.Mode)
 		if r.Err != "" {
